@@ -1193,6 +1193,15 @@ def run_history(ctx: fw.Ctx, hist: dict, cases: list[fw.Case]) -> None:
             ctx.fail('the processing step raised', {'layer': 'function-history', 'history': hist, 'step': si}, observed=repr(e), sig='step-raised')
             return
         judge(ctx, {**case, 'history': hist}, obs, False, cases, replay_restart=False)
+        # what kopf maintains on the object (C02_refs_closed_preserved): every sub-handler record, of any depth, is listed
+        # in the record of its top-level ancestor -- otherwise nothing would ever remove it
+        for k, m1 in obs['after'].items():
+            if m1 is not None and '/' in k:
+                top = k.split('/', 1)[0]
+                if k not in ((obs['after'].get(top) or {}).get('subrefs') or []):
+                    ctx.fail('a sub-handler record on the object is not referenced by the record of its top-level ancestor',
+                             {'layer': 'function', 'stub': False, 'case': {**case, 'history': hist}}, observed={'record': k, 'top': obs['after'].get(top)},
+                             sig='unreferenced-subrecord')
         # ids whose record was dropped in this step (whether matched by a known finding or not) explain a later re-run
         for k, m0 in obs['body_records'].items():
             if obs['after'].get(k) is None and not obs['fho']:
